@@ -738,21 +738,3 @@ Proof.
 Qed.
 
 (** ** Assumption audit *)
-Print Assumptions new_table_ok.
-Print Assumptions tbl_adjust_ok.
-Print Assumptions tbl_adjust_rows.
-Print Assumptions tbl_adjust_len.
-Print Assumptions tbl_add_ok.
-Print Assumptions tbl_add_spec.
-Print Assumptions tbl_alloc_ok.
-Print Assumptions tbl_alloc_spec.
-Print Assumptions tbl_remove_ok.
-Print Assumptions tbl_remove_spec.
-Print Assumptions tbl_reset_ok.
-Print Assumptions tbl_reset_spec.
-Print Assumptions col_reset_paths_agree.
-Print Assumptions tbl_add_all_ok.
-Print Assumptions tbl_add_all_spec.
-Print Assumptions col_write_ok.
-Print Assumptions col_set_ok.
-Print Assumptions tids_remove_spec.
